@@ -6,6 +6,7 @@ import (
 	"fmt"
 	"math/rand"
 	"strings"
+	"sync/atomic"
 	"time"
 
 	"github.com/samber/ro"
@@ -16,7 +17,7 @@ import (
 	"verifharness/internal/src"
 )
 
-var ops = []string{"delay", "timer", "interval", "intervalinitial", "rangeinterval", "repeatinterval", "timeout", "throttletime", "sampletime", "buffertime", "buffertimeorcount", "stop"}
+var ops = []string{"delay", "timer", "interval", "intervalinitial", "rangeinterval", "repeatinterval", "timeout", "timeout-slow", "throttletime", "sampletime", "buffertime", "buffertimeorcount", "stop"}
 
 func plan(tier string, seed int64) []driver.Case {
 	reps := 40
@@ -61,8 +62,15 @@ type run struct {
 }
 
 // drive subscribes obs and plays values with the given gaps from a goroutine, ending with end (Next = no terminal).
-func drive(mk func(o ro.Observable[int]) (func(*rec.Rec) ro.Subscription), gs []time.Duration, end rec.Kind, ctx context.Context) *run {
+func drive(mk func(o ro.Observable[int]) func(*rec.Rec) ro.Subscription, gs []time.Duration, end rec.Kind, ctx context.Context) *run {
+	return driveRec(mk, gs, end, nil)
+}
+
+func driveRec(mk func(o ro.Observable[int]) func(*rec.Rec) ro.Subscription, gs []time.Duration, end rec.Kind, prep func(*rec.Rec)) *run {
 	x := &run{r: rec.New("c16"), s: src.New("s"), done: make(chan struct{})}
+	if prep != nil {
+		prep(x.r)
+	}
 	subscribe := mk(x.s.Observable())
 	x.ts = rec.Mono()
 	x.sub = subscribe(x.r)
@@ -86,6 +94,22 @@ func drive(mk func(o ro.Observable[int]) (func(*rec.Rec) ro.Subscription), gs []
 		}
 	}()
 	return x
+}
+
+// driveDwell is drive with an observer that stays dwell[i] inside its callback for the i-th value.
+func driveDwell(mk func(o ro.Observable[int]) func(*rec.Rec) ro.Subscription, gs []time.Duration, end rec.Kind, dwell map[int]time.Duration) *run {
+	if len(dwell) == 0 {
+		return drive(mk, gs, end, nil)
+	}
+	var k atomic.Int64
+	return driveRec(mk, gs, end, func(r *rec.Rec) {
+		r.Dwell = func() {
+			i := int(k.Add(1)) - 1
+			if dw := dwell[i]; dw > 0 {
+				time.Sleep(dw)
+			}
+		}
+	})
 }
 
 func waitTerminal(r *rec.Rec, budget time.Duration) {
@@ -217,38 +241,51 @@ func runCase(c driver.Case) driver.Result {
 		default:
 			o = ro.Map(func(x int) int64 { return int64(x) })(ro.Scan(func(acc, _ int) int { return acc + 1 }, -1)(ro.RepeatWithInterval(7, int64(k), d)))
 		}
-		r := rec.New(op)
-		ts := rec.Mono()
-		sub := o.Subscribe(rec.Raw[int64](r))
-		waitTerminal(r, 3*time.Second+time.Duration(k+2)*(d+initial))
-		sub.Unsubscribe()
-		ev := r.Events()
-		idx := int64(0)
-		for _, e := range ev {
-			if e.Kind == rec.Error {
-				return fail("error-instead-of-values", fmt.Sprintf("(initial %v) ended with an error: %s", initial, e.ErrS))
+		// the observable is cold: every subscription - the second one of the same value too - counts from 0 and from its own start
+		for round := 0; round < 2; round++ {
+			r := rec.New(op)
+			ts := rec.Mono()
+			sub := o.Subscribe(rec.Raw[int64](r))
+			waitTerminal(r, 3*time.Second+time.Duration(k+2)*(d+initial))
+			sub.Unsubscribe()
+			ev := r.Events()
+			idx := int64(0)
+			for _, e := range ev {
+				if e.Kind == rec.Error {
+					return fail("error-instead-of-values", fmt.Sprintf("(initial %v) ended with an error: %s", initial, e.ErrS))
+				}
+				if e.Kind != rec.Next {
+					continue
+				}
+				if e.Val != fmt.Sprint(idx) {
+					return fail("wrong-sequence", fmt.Sprintf("subscription #%d of the observable: value #%d is %s; trace [%s]", round+1, idx, e.Val, r.TraceString()))
+				}
+				lower := int64(idx+1) * int64(d)
+				if op == "intervalinitial" {
+					lower = int64(initial) + idx*int64(d)
+				}
+				if e.T-ts < lower {
+					return fail("emitted-early", fmt.Sprintf("(initial %v) value %d delivered %s after subscription, not before %s is allowed", initial, idx, ms(e.T-ts), ms(lower)))
+				}
+				idx++
 			}
-			if e.Kind != rec.Next {
-				continue
+			if r.Terminal() == rec.Complete && idx != int64(k) {
+				return fail("wrong-count", fmt.Sprintf("%d values then completion, expected %d", idx, k))
 			}
-			if e.Val != fmt.Sprint(idx) {
-				return fail("wrong-sequence", fmt.Sprintf("value #%d is %s; trace [%s]", idx, e.Val, r.TraceString()))
-			}
-			lower := int64(idx+1) * int64(d)
-			if op == "intervalinitial" {
-				lower = int64(initial) + idx*int64(d)
-			}
-			if e.T-ts < lower {
-				return fail("emitted-early", fmt.Sprintf("(initial %v) value %d delivered %s after subscription, not before %s is allowed", initial, idx, ms(e.T-ts), ms(lower)))
-			}
-			idx++
+			res.Events += int64(len(ev))
 		}
-		if r.Terminal() == rec.Complete && idx != int64(k) {
-			return fail("wrong-count", fmt.Sprintf("%d values then completion, expected %d", idx, k))
+	case "timeout", "timeout-slow":
+		x := &run{}
+		dwells := map[int]time.Duration{}
+		if op == "timeout-slow" {
+			// a consumer that takes its time: the deadline armed before a value arrived must not
+			// fire while - or right after - that value is being handled
+			choices := []time.Duration{0, d / 2, d, d + d/2, 2 * d}
+			for i := 0; i < n; i++ {
+				dwells[i] = choices[rng.Intn(len(choices))]
+			}
 		}
-		res.Events = int64(len(ev))
-	case "timeout":
-		x := drive(func(o ro.Observable[int]) func(*rec.Rec) ro.Subscription { return intSub(ro.Timeout[int](d)(o)) }, gs, end, nil)
+		x = driveDwell(func(o ro.Observable[int]) func(*rec.Rec) ro.Subscription { return intSub(ro.Timeout[int](d)(o)) }, gs, end, dwells)
 		<-x.done
 		waitTerminal(x.r, 3*time.Second+4*d)
 		func() { defer func() { recover() }(); x.sub.Unsubscribe() }()
@@ -256,36 +293,49 @@ func runCase(c driver.Case) driver.Result {
 		if msg, ok := subseq(ev, n); !ok {
 			return fail("reordered-or-invented", msg)
 		}
+		var nexts []rec.Event
+		for _, e := range ev {
+			if e.Kind == rec.Next {
+				nexts = append(nexts, e)
+			}
+		}
+		var emNext []src.Emission
+		for _, em := range x.s.Emissions() {
+			if em.N.K == rec.Next {
+				emNext = append(emNext, em)
+			}
+		}
 		for _, e := range ev {
 			if e.Kind != rec.Error || !strings.Contains(e.ErrS, "timeout") {
 				continue
 			}
-			// The timer that fired was armed at subscription or while some value j was processed (not before the
-			// emission of j began) and the following emission had not yet returned (hence not yet stopped it)
-			// when the full period had elapsed: ∃ j: arm_j + d ≤ min(E, return of emission j+1).
-			type arm struct{ at, nextReturn int64 }
-			var arms []arm
-			emsAll := x.s.Emissions()
-			nextRet := func(i int) int64 {
-				if i < len(emsAll) && emsAll[i].TEnd != 0 {
-					return emsAll[i].TEnd
+			// The deadline that fired was armed at subscription, or after the observer had finished
+			// with some value j (Timeout re-arms once the value has been handled), and it is disarmed
+			// before the observer gets value j+1: ∃ j: arm_j + d ≤ E and arm_j + d ≤ start of the
+			// observer's callback for value j+1 (not delivered: return of its emission; none: ∞).
+			limit := func(j int) int64 { // latest instant at which deadline j can still have been armed
+				if j < len(nexts) {
+					return nexts[j].T
+				}
+				if j < len(emNext) && emNext[j].TEnd != 0 {
+					return emNext[j].TEnd
 				}
 				return 1 << 62
 			}
-			arms = append(arms, arm{x.ts, nextRet(0)})
-			for i, em := range emsAll {
-				if em.N.K == rec.Next && em.TBegin < e.T {
-					arms = append(arms, arm{em.TBegin, nextRet(i + 1)})
-				}
-			}
-			ok := false
-			for _, a := range arms {
-				if a.at+int64(d) <= e.T && a.at+int64(d) <= a.nextReturn {
+			ok := x.ts+int64(d) <= e.T && x.ts+int64(d) <= limit(0)
+			for j := range nexts {
+				at := nexts[j].TE
+				if at != 0 && at+int64(d) <= e.T && at+int64(d) <= limit(j+1) {
 					ok = true
 				}
 			}
 			if !ok {
-				return fail("fired-before-a-full-quiet-period", fmt.Sprintf("timeout error delivered at %s: no arming point (subscription at %s or a value's emission) is followed by a full quiet period of %v before it", ms(e.T), ms(x.ts), d))
+				last := "no value"
+				if len(nexts) > 0 {
+					l := nexts[len(nexts)-1]
+					last = fmt.Sprintf("value %s handled from %s to %s", l.Val, ms(l.T), ms(l.TE))
+				}
+				return fail("fired-before-a-full-quiet-period", fmt.Sprintf("timeout error delivered at %s (subscription at %s, last: %s): no point at which the deadline can have been armed (subscription, or the observer returning from a value) is followed by a full quiet period of %v before the next value reached the observer", ms(e.T), ms(x.ts), last, d))
 			}
 		}
 		res.Events = int64(len(ev))
@@ -498,10 +548,10 @@ func countNext(ev []rec.Event) int {
 
 func main() {
 	driver.Main(driver.Property{
-		ID:    "C16",
-		Level: "exploration",
-		Rule:  "seeded timelines (inter-arrival gaps from {0, d/4, d−ε, d, d+ε, 3d} with bursts; durations 1/5/20(/40) ms; ending complete/error/none; jitter or yields at the timer-goroutine hook points) through Delay, Timer, Interval, IntervalWithInitial (initial d/2, d, 2d, 0), RangeWithInterval, RepeatWithInterval, Timeout, ThrottleTime, SampleTime, BufferWithTime, BufferWithTimeOrCount, and Unsubscribe / context cancellation at a random instant. Monotonic timestamps are taken by the harness at emission and inside the recording observer. ONLY lower bounds and order/count relations are asserted (Delay: delivery − emission ≥ d, order kept, nothing lost at completion; periodic sources: value k not before (k+1)·p / initial + k·p, values 0,1,2…; Timeout: error not before d after the emission that armed it; ThrottleTime: two deliveries ≥ w apart measured from the first one's emission, first value delivered; SampleTime: m-th delivery not before (m+1)·p, output an increasing subsequence; time buffers: increasing subsequence, complete at completion, sizes ≤ count, m-th time-triggered buffer not before (m+1)·p; silence (≤1 in-flight value) after stop). Non-trivial: ≥1 timestamped event.",
-		Assume: []string{"machine load can only delay deliveries; no upper bound on time is asserted"},
+		ID:        "C16",
+		Level:     "exploration",
+		Rule:      "seeded timelines (inter-arrival gaps from {0, d/4, d−ε, d, d+ε, 3d} with bursts; durations 1/5/20(/40) ms; ending complete/error/none; jitter or yields at the timer-goroutine hook points) through Delay, Timer, Interval, IntervalWithInitial (initial d/2, d, 2d, 0), RangeWithInterval, RepeatWithInterval, Timeout, ThrottleTime, SampleTime, BufferWithTime, BufferWithTimeOrCount, and Unsubscribe / context cancellation at a random instant. Monotonic timestamps are taken by the harness at emission and inside the recording observer. ONLY lower bounds and order/count relations are asserted (Delay: delivery − emission ≥ d, order kept, nothing lost at completion; periodic sources: value k not before (k+1)·p / initial + k·p, values 0,1,2…; Timeout: error not before d after the emission that armed it; ThrottleTime: two deliveries ≥ w apart measured from the first one's emission, first value delivered; SampleTime: m-th delivery not before (m+1)·p, output an increasing subsequence; time buffers: increasing subsequence, complete at completion, sizes ≤ count, m-th time-triggered buffer not before (m+1)·p; silence (≤1 in-flight value) after stop). Non-trivial: ≥1 timestamped event.",
+		Assume:    []string{"machine load can only delay deliveries; no upper bound on time is asserted"},
 		Plan:      plan,
 		Run:       runCase,
 		CaseWatch: 60 * time.Second,
